@@ -116,8 +116,12 @@ class C15Episode(Episode):
             self.settle_and_check(i, 'rm %r' % nm)
         elif kind in ('start', 'stop'):
             nm = name_variant(op['name'], op.get('case'))
-            r = w.call(kind, {'name': nm, 'match': 'simple'},
-                       waiting=not op.get('nowait'))
+            props = {'name': nm}
+            if not op.get('glob'):
+                props['match'] = 'simple'
+            # (the default matching is by glob pattern, against the names
+            # of the watchers that exist: a plain name matches itself only)
+            r = w.call(kind, props, waiting=not op.get('nowait'))
             self.fired['req:' + kind] += 1
             o = r.reply
             ok = isinstance(o, dict) and o.get('status') == 'ok'
@@ -248,6 +252,18 @@ class C15Episode(Episode):
                       'add %r answered error but the set changed: %r -> %r'
                       % (add_name, sorted(before), views['status']),
                       once=(i, 'adde'))
+        # nothing runs for a name that is in none of the views
+        k = self.world.kernel
+        for nm in POOL:
+            if nm.lower() in self.model:
+                continue
+            live = [p.pid for p in k.live_by_marker(marker_of(nm))
+                    if p.pid not in self.orphans]
+            if live:
+                self.viol('workers_of_absent_watcher',
+                          'after %s: no watcher is called %r, yet workers %s '
+                          'started for that name are alive' % (what, nm, live),
+                          once=(i, 'absent', nm.lower()))
         # every case variant of a name reaches the same watcher
         for key, ent in list(self.model.items())[:3]:
             nm = ent['name']
@@ -337,7 +353,8 @@ class C15(Prop):
                                                              'stop']),
                             'name': nm, 'case': rng.choice(
                                 [None, 'upper', 'lower', 'swap']),
-                            'nowait': rng.random() < 0.3})
+                            'nowait': rng.random() < 0.3,
+                            'glob': rng.random() < 0.5})
             else:
                 ops.append({'op': 'c15', 'kind': 'reloadconfig',
                             'file': self.gen_file(rng),
